@@ -17,7 +17,7 @@ from pymbolic.mapper.substitutor import make_subst_func, SubstitutionMapper
 from .. import usertypes as U
 from ..core import check, short
 from ..gen import expr as G
-from ..gen import scale
+from ..gen import numbers, scale
 from ..ref import normal
 
 RULE = ("pair pools: ~150 objects per pool built so every node class (built-in, decorated user, "
@@ -103,6 +103,23 @@ def class_examples(rng, g, e=None):
         p.Product((4, x)), p.Product((4.0, x)), p.Power(x, 2), p.Power(x, 2.0),
         p.Sum((x, 2**70)), p.Sum((x, float(2**70))),
     ]
+    # every kind of number in DIRECT scalar fields and in operand tuples, next to its ==-twins
+    from fractions import Fraction as _Fr
+    for tw in rng.sample(numbers.TWINS, 3):
+        tw = [c for c in tw if not isinstance(c, _Fr)]      # (not a registered constant class)
+        for c in rng.sample(tw, min(4, len(tw))):
+            mk = rng.choice([lambda c: p.Power(x, c), lambda c: p.Quotient(c, x),
+                             lambda c: p.Subscript(x, c), lambda c: p.LeftShift(x, c),
+                             lambda c: p.If(x, c, 1), lambda c: p.Comparison(c, "<", x),
+                             lambda c: p.Sum((x, c)), lambda c: p.Call(x, (c,)),
+                             lambda c: U.UNode(c, "t"), lambda c: p.Remainder(x, c)])
+            for c2 in tw[:3] + [c]:
+                out.append(mk(c2))
+    # (no NaN: nan != nan, so a node holding one is by the statement's own rule not even equal
+    #  to its copy -- p.NaN is the node for that)
+    for k in ("negzero", "inf", "bigfloat", "complex", "np.float32", "np.int8", "np.bool_"):
+        c = rng.choice(numbers.KINDS[k])
+        out += [p.Power(x, c), p.Sum((c, x))]
     return out
 
 
